@@ -393,6 +393,12 @@ func analyse(fi *fnInfo) {
 				add(&site{pos: ins.Pos(), kind: "call", callees: append(callees, extra...), isGo: isGo})
 			case *ssa.Send:
 				add(&site{pos: ins.Pos(), kind: "send", id: chanId(x.Chan), block: true})
+			case *ssa.UnOp:
+				// a receive outside a select blocks until the other side sends or closes: recorded like a blocking send,
+				// on the pseudo channel "<-" + channel (what matters is which locks are held meanwhile)
+				if x.Op == token.ARROW {
+					add(&site{pos: ins.Pos(), kind: "send", id: "<-" + chanId(x.X), block: true})
+				}
 			case *ssa.Select:
 				selBlocking[x] = x.Blocking
 				for _, s := range x.States {
